@@ -676,25 +676,29 @@ def check_foreign_roots(rep, config):
     handed to stoGcMarkRange is [pgAt(i), pgAt(i) + PgSize) (or [pgAt(i), pgAt(i+1))), with i stepped by one.  A range that
     ends early leaves a page -- for a one-page run: the only page -- unscanned, and a block referenced only from there is swept
     while reachable.  Any other shape of that scan is refused (the end of a run of pages cannot be derived here)."""
-    f = common.extract("store.c", config, trees=["stoGcMark"])
+    f = common.extract("store.c", config, all_trees=True)
     fn = f.func("stoGcMark")
     n = 0
     # the size of a page: the stride of the type pgAt() points to
     page = f.raw.get("typedefs", {}).get("Page") if isinstance(f.raw.get("typedefs"), dict) else None
     page_size = None
-    for x in walk(fn["body"]):
-        if x.get("mac") == "PgSize" and const_value(x) is not None and x["k"] in ("ParenExpr", "BinaryOperator") and \
-                x["k"] == "ParenExpr":
-            page_size = const_value(x)
+    for g in f.funcs.values():
+        if "body" not in g or page_size is not None:
+            continue
+        for x in walk(g["body"]):
+            if x.get("mac") == "PgSize" and const_value(x) is not None and x["k"] == "ParenExpr":
+                page_size = const_value(x)
+                break
     if page_size is None:
         raise AnalysisBroken("stoGcMark: the value of PgSize could not be read from the tree")
     for lp in walk(fn["body"]):
         if lp["k"] != "ForStmt":
             continue
         body = lp["c"][-1]
+        # `if (pgMap[i] != PgForeign) continue;` or `if (pgMap[i] == PgForeign) { scan }`
         skips = [x for x in walk(body) if x["k"] == "IfStmt" and
                  any(y["k"] == "DeclRefExpr" and y["n"] == "PgForeign" for y in walk(x["c"][0])) and
-                 any(y["k"] == "ContinueStmt" for y in walk(x["c"][1]))]
+                 (any(y["k"] == "ContinueStmt" for y in walk(x["c"][1])) or calls(x["c"][1], "stoGcMarkRange"))]
         inner = [x for x in walk(body) if x["k"] in ("ForStmt", "WhileStmt", "DoStmt")]
         if not skips:
             continue
@@ -724,6 +728,18 @@ def check_foreign_roots(rep, config):
         if len(marks) != 1:
             raise AnalysisBroken("%s: expected one stoGcMarkRange per foreign page, found %d" % (where, len(marks)))
         lo, hi = strip(marks[0]["c"][1]), strip(marks[0]["c"][2])
+        # a local assigned once in the loop body stands for its value
+        once = {}
+        for x in walk(body):
+            if x["k"] == "BinaryOperator" and x["op"] == "=" and (strip(x["c"][0]) or {}).get("k") == "DeclRefExpr":
+                once.setdefault(strip(x["c"][0])["n"], []).append(x["c"][1])
+            elif x["k"] == "DeclStmt":
+                for d in x.get("decls", []):
+                    if d.get("init") is not None:
+                        once.setdefault(d["n"], []).append(d["init"])
+        if hi is not None and hi["k"] == "DeclRefExpr" and len(once.get(hi["n"], [])) == 1 and \
+                any(y["k"] == "BinaryOperator" and y["op"] == "+" for y in walk(once[hi["n"]][0])):
+            hi = strip(once[hi["n"]][0])
         # p = (char *) pgAt(i)
         pvar = None
         for x in walk(body):
